@@ -128,6 +128,48 @@ example : (runCache (fun f => f * 100) id [1, 2, 1, 2, 1, 2] c0).pc 1 = .done 10
 /-- two threads with the SAME fingerprint: the second finds the entry of the first -/
 example : (runCache (fun f => f * 100) (fun _ => 7) [1, 1, 2, 1, 2] c0).pc 2 = .done 700 := by decide
 
+/-- `cache_own_value_evicting`.  The same statement when the backend may, between ANY two atomic
+    operations of the threads, drop ANY entry (a bounded, expiring or shared backend): every
+    interleaving of thread steps and evictions keeps the store invariant, and every finished thread
+    returned the value of ITS options — a thread whose entry vanished between its `exists` and its
+    `get` falls through to the computation (`Cached.evaluate`: `except CacheGetFailure: pass`). -/
+theorem cache_own_value_evicting (val : Fp → Val) (fp : Thread → Fp) (evs : List CEv) (s : CState)
+    (hI : Inv val s.store) (hD : ∀ t v, s.pc t = .done v → v = val (fp t)) :
+    Inv val (runCacheEv val fp evs s).store ∧
+    ∀ t v, (runCacheEv val fp evs s).pc t = .done v → v = val (fp t) := by
+  induction evs generalizing s with
+  | nil => exact ⟨hI, hD⟩
+  | cons e rest ih =>
+    cases e with
+    | step t =>
+      have h := cstep_inv val fp s t hI hD
+      exact ih (cstep val fp s t) h.1 h.2
+    | evict f => exact ih (evict s f) (evict_inv val s f hI) hD
+
+/-- non-vacuity: thread 2 sees the entry of thread 1, the entry is dropped before thread 2 reads it,
+    and thread 2 still finishes with its own value (it recomputes and stores it again) -/
+example : (runCacheEv (fun f => f * 100) (fun _ => 7)
+            [.step 1, .step 1, .step 1, .step 2, .evict 7, .step 2, .step 2, .step 2] c0).pc 2 = .done 700 := by
+  decide
+
+/-- `fall_through_needed`: the fall-through is what the statement rests on.  With a `get` that
+    propagates its miss after `exists` said True, the same history fails in thread 2, while every
+    history without an eviction runs exactly as before (`strict_agrees_without_eviction`). -/
+theorem fall_through_needed :
+    (runStrictEv (fun f => f * 100) (fun _ => 7)
+      [.step 1, .step 1, .step 1, .step 2, .evict 7, .step 2] c0).isNone = true := by decide
+
+/-- `strict_agrees_without_eviction`: on every history WITHOUT evictions (from any state in which an
+    entry a thread has seen is present — the empty cache `c0` in particular) the variant without the
+    fall-through runs exactly like the code: the two differ only where the backend loses an entry
+    between `exists` and `get`, which is why no history over `MemoryCache` alone tells them apart. -/
+theorem strict_agrees_without_eviction (val : Fp → Val) (fp : Thread → Fp) (sched : List Thread) (s : CState)
+    (h : Seen fp s) :
+    runStrictEv val fp (sched.map CEv.step) s = some (runCache val fp sched s) :=
+  runStrict_of_seen val fp sched s h
+
+example (fp : Thread → Fp) : Seen fp c0 := by intro t h; cases h
+
 /-! ## Non-vacuity and the old code for handler contexts -/
 
 def s0 : State := ⟨[], fun _ => ⟨[], fun _ => []⟩, fun _ => 0, fun _ => none⟩
